@@ -37,7 +37,7 @@ claim("C03", "property-based testing: generated reaction lists, stoichiometry by
       _TB, "DESIGN.md section 4 C03")
 
 claim("C07", "property-based testing: exhaustive enumeration of the option lattice x generated models, result-shape oracle",
-      "All 432 option combinations (incl. a dividing volume object) are enumerated for every "
+      "All 576 option combinations (incl. a dividing volume object and numpy boolean flags) are enumerated for every "
       "generated model and grid (24 models quick / 300 thorough); outcomes are classified as explicit option error vs "
       "failure from inside, and returned results are checked for row count, exact time axis, column order, volume column "
       "and first row = initial condition with assignment rules applied.", _TB, "DESIGN.md section 4 C07")
